@@ -1799,6 +1799,8 @@ class Interp:
             # change: look inside it instead of treating it as an opaque primitive (recursion is not followed)
             new_helper = tgt not in known_fns(self.crate.name) and tgt not in self.fn_stack
             if carries or is_bool or tgt in self.inline_always:
+                if new_helper:
+                    self.inlined.add(tgt)      # (events inside are attributed to its known caller)
                 return self.call_body(tgt, body, args)
             if self._trivial_accessor(tgt, body) and tgt not in self.fn_stack:
                 # `fn params(&self) -> &P { &self.params }`: the call is the field selection (the accessor's name stays
@@ -2083,7 +2085,8 @@ class Interp:
                 body_ = body_["expr"]
             builds_ = body_.get("k") in ("Match", "If", "Struct", "Tup") or (body_.get("k") == "Call" and "Ctor" in (body_.get("dk") or "")) \
                 or (body_.get("k") == "Binary" and body_.get("ty") == "bool") or (body_.get("k") == "MethodCall" and body_.get("ty") == "bool")
-            if last in ("map_or", "map_or_else") or builds_:
+            casts_ = body_.get("k") == "Cast"
+            if last in ("map_or", "map_or_else") or builds_ or casts_:
                 some_ = self._some(core(args[0]))
                 if some_ is None:
                     some_ = atom("some", core(args[0]).r())
